@@ -115,8 +115,13 @@ func (m *Model) Rearrange(perm []int) {
 			}
 		}
 	})
+	seenSets := make(map[*TokenSet]bool) // named sets can share subexpressions
 	for _, set := range m.Sets {
 		set.ForEach(func(ts *TokenSet) {
+			if seenSets[ts] {
+				return
+			}
+			seenSets[ts] = true
 			if nt := ts.Symbol - terms; nt >= 0 {
 				ts.Symbol = terms + perm[nt]
 			}
